@@ -370,3 +370,46 @@ func TestPollLoopFairnessAndLivelock(t *testing.T) {
 		t.Fatalf("poll loop that can never succeed must be reported as livelock: %s", keys(got))
 	}
 }
+
+func TestCondWaitSignalBroadcast(t *testing.T) {
+	got, _ := outcomes(t, 1000, true, func() string {
+		var mu Mutex
+		c := NewCond(&mu)
+		ready := false
+		var woke Cell[int]
+		var ths []*Thread
+		for i := 0; i < 2; i++ {
+			ths = append(ths, Go("waiter", func() {
+				mu.Lock()
+				for !ready {
+					c.Wait()
+				}
+				woke.Set(woke.Get() + 1)
+				mu.Unlock()
+			}))
+		}
+		mu.Lock()
+		ready = true
+		c.Broadcast()
+		mu.Unlock()
+		for _, th := range ths {
+			Join(th)
+		}
+		return fmt.Sprint(woke.Get())
+	})
+	if keys(got) != "2" {
+		t.Fatalf("broadcast wakes all: %s", keys(got))
+	}
+	// a lost wake-up: Signal before the waiter waits, flag not re-checked under the lock
+	got, _ = outcomes(t, 2, true, func() string {
+		var mu Mutex
+		c := NewCond(&mu)
+		w := Go("waiter", func() { mu.Lock(); c.Wait(); mu.Unlock() })
+		c.Signal()
+		Join(w)
+		return "ok"
+	})
+	if keys(got) != "DEADLOCK,ok" {
+		t.Fatalf("signal-before-wait must be able to deadlock: %s", keys(got))
+	}
+}
